@@ -446,6 +446,16 @@ fn run_typed<KF: KeyFam>(case: &Case, out: &mut CaseOut) -> R {
             }
         }
     }
+    drop(db);
+    let mut db = match case.cfg.builder().create_with_backend(backend.reopen_handle()) {
+        Ok(db) => db,
+        Err(e) => sfail!("reopen", "final reopen failed: {e:?}"),
+    };
+    match db.check_integrity() {
+        Ok(true) => {}
+        r => sfail!("final-check-integrity", "check_integrity() after the case returned {r:?}"),
+    }
+    drop(db);
     let v = backend.monitor_violations();
     sensure!(v.is_empty(), "backend-contract", "backend contract violated: {:?}", v);
     if st.run_spliced_mid_tall && st.crossed_after_splice {
